@@ -32,7 +32,7 @@ def run_requests(reqs, chunk=400):
 
 
 def load_req(case):
-    return ['load', case.use_internal, case.tree.sx(), case.doc_sx()]
+    return ['load_oma' if getattr(case, 'oma', False) else 'load', case.use_internal, case.tree.sx(), case.doc_sx()]
 
 
 def reply_forest(rep):
